@@ -30,7 +30,15 @@ def main(argv):
             print(json.dumps(rec, indent=1)[:4000])
             print("(no concrete input recorded: re-run `harness/check %s` to re-check the named obligations)" % pid)
             return 1
-        bad = mod.replay(rec)
+        try:
+            bad = mod.replay(rec)
+        except Exception:
+            traceback.print_exc()
+            print("replay %s: cannot be re-run (the record is damaged or of a kind this property cannot replay)" % replay)
+            return 2
+        if bad is None:
+            print("replay %s: cannot be re-run (record kind not replayable)" % replay)
+            return 2
         print("replay %s: %s" % (replay, "still fails" if bad else "passes now"))
         if bad:
             print("VIOLATION property=%s replay=%s" % (pid, replay))
